@@ -459,7 +459,23 @@ func (g *G) mapCall() *Expr {
 		return MCall(recv, name, args...)
 	}
 	key := Str([]string{"a", "b", "c", "d", "z", "q"}[g.n(6, "key")])
-	switch g.n(14, "mapMethod") {
+	switch g.n(16, "mapMethod") {
+	case 14, 15:
+		// a chain of 8..13 replace calls (it is flattened at depth 10), then a replacement map
+		// of 1..4 keys inside and outside the key set - sometimes as large as the map itself
+		g.use("replace")
+		g.use("mapReduce")
+		chain := MCall(SCall("numbers", g.int(8, 13, "chain")), "mapReduce", recv, lam("a,b", MCall(a, "replace", lam("e", Map([]string{"a"}, []*Expr{Bin("+", b, Int(100))})))))
+		keys := []string{"a", "b", "zz", "yy", "c"}
+		n := 1 + g.n(4, "repKeys")
+		start := g.n(len(keys), "repStart")
+		var ks []string
+		var vs []*Expr
+		for i := 0; i < n; i++ {
+			ks = append(ks, keys[(start+i)%len(keys)])
+			vs = append(vs, Int(i))
+		}
+		return MCall(MCall(chain, "replace", lam("e", Map(ks, vs))), "string")
 	case 0:
 		return m("accept", g.mb(lam("a,b", Bin(">", b, Int(1)))))
 	case 1:
